@@ -211,10 +211,12 @@ package termincommittee
 //@     | && (forall i :: 0 <= i && i < len(quorumIds) - 1 ==> quorumIds[i] == PIds(tic.storage, pver, blockHeight, view, blockHash)[i])
 
 //@ func (*TermInCommittee).checkCommitted
+//@   assert before call onCommit [O13.4.marked-committed-before-the-callback] tic.committedBlock != nil
+//@   assert before call For [O15.7.commit-runs-under-the-term-wide-context] $hv.height == tic.State.height && $hv.view == 18446744073709551615
 //@   requires [term-not-yet-committed] ncommitted == 0
 //@   ensures [O9.lock-kept] LockKept(tic, old(tic.preparedLocally), old(tic.preparedLocally.isPreparedLocally), old(tic.preparedLocally.latestView))
 //@   inv GhostInv(tic)
-//@   props C03 C04 C10 C13 C09
+//@   props C03 C04 C10 C13 C09 C15
 //@   requires TicOK(tic)
 //@   requires blockHeight == tic.State.height
 //@   modifies @TIC
@@ -274,9 +276,10 @@ package termincommittee
 //@   modifies @TIC
 
 //@ func (*TermInCommittee).HandlePrePrepare
+//@   assert before call For [O15.7.validation-runs-under-the-context-of-the-proposal-view] $hv.height == tic.State.height && $hv.view == ppm.content.SignedHeader().View()
 //@   requires [term-not-yet-committed] ncommitted == 0
 //@   ensures [O9.lock-kept] LockKept(tic, old(tic.preparedLocally), old(tic.preparedLocally.isPreparedLocally), old(tic.preparedLocally.latestView))
-//@   props C04 C07 C08 C10 C09
+//@   props C04 C07 C08 C10 C09 C15
 //@   requires TicOK(tic)
 //@   inv GhostInv(tic)
 //@   requires [FilterOK] ppm != nil && ppm.content != nil && ppm.content.SignedHeader().BlockHeight() == tic.State.height && ppm.content.Sender().MemberId() != tic.myMemberId
@@ -356,9 +359,11 @@ package termincommittee
 //@   ensures [frame] tic.State.height == old(tic.State.height) && tic.State == old(tic.State)
 
 //@ func (*TermInCommittee).HandleNewView
+//@   assert before call For [O15.7.validation-runs-under-the-context-of-the-new-view] $hv.height == tic.State.height && $hv.view == nvm.content.SignedHeader().View()
+//@   assert before call processPreprepare [O15.6.context-observed-live-after-validation] latestVote != nil || lastCtxErrNil
 //@   requires [term-not-yet-committed] ncommitted == 0
 //@   ensures [O9.lock-kept] LockKept(tic, old(tic.preparedLocally), old(tic.preparedLocally.isPreparedLocally), old(tic.preparedLocally.latestView))
-//@   props C04 C07 C08 C10 C09
+//@   props C04 C07 C08 C10 C09 C15
 //@   requires TicOK(tic)
 //@   inv GhostInv(tic)
 //@   requires [FilterOK] nvm != nil && nvm.content != nil && nvm.content.SignedHeader().BlockHeight() == tic.State.height && nvm.content.Sender().MemberId() != tic.myMemberId
@@ -438,10 +443,11 @@ package termincommittee
 //@     invariant [ghost-frame] forall gv int :: ppStored[gv] == old(ppStored[gv]) && ppHash[gv] == old(ppHash[gv]) && sentPrepare[gv] == old(sentPrepare[gv]) && sentCommit[gv] == old(sentCommit[gv]) && sentPrepareHash[gv] == old(sentPrepareHash[gv]) && sentCommitHash[gv] == old(sentCommitHash[gv]) && proposed[gv] == old(proposed[gv])
 
 //@ func (*TermInCommittee).onElectedByViewChange
+//@   assert before call For [O15.7.proposal-requested-under-the-context-of-its-own-view] $hv.height == tic.State.height && $hv.view == view
 //@   ensures [view-monotone] tic.State.view >= old(tic.State.view) && tic.State == old(tic.State) && lastVC == old(lastVC)
 //@   requires [term-not-yet-committed] ncommitted == 0
 //@   ensures [O9.lock-kept] LockKept(tic, old(tic.preparedLocally), old(tic.preparedLocally.isPreparedLocally), old(tic.preparedLocally.latestView))
-//@   props C07 C09 C10 C04
+//@   props C07 C09 C10 C04 C15
 //@   requires TicOK(tic)
 //@   inv GhostInv(tic)
 //@   requires [O7.6.i-am-the-leader-of-that-view] tic.myMemberId == LeaderOf(tic.committeeMembers, view)
@@ -488,6 +494,7 @@ package termincommittee
 //@   assert before call CreateViewChangeMessage [O9.1.vote-carries-what-was-extracted] (tic.preparedLocally != nil && tic.preparedLocally.isPreparedLocally) || $preparedMessages == nil
 
 //@ func (*TermInCommittee).startTerm
+//@   assert before call For [O15.7.proposal-requested-under-the-context-of-its-own-view] $hv.height == tic.State.height && $hv.view == 0
 //@   props C10 C14 C15
 //@   requires TicOK(tic)
 //@   inv GhostInv(tic)
